@@ -64,41 +64,73 @@ Proof.
     dt_unfold; lia.
 Qed.
 
-(* C11 (1): integer to integer through an integer work type is exact
-   saturation, for ALL values of the input type. *)
+(* the work type of an integer pair is an integer type that holds the input *)
+Lemma work_dtype_int : forall i o, is_int i = true -> is_int o = true -> is_int (work_dtype i o) = true.
+Proof. intros i o Hi Ho. destruct i; try discriminate Hi; destruct o; try discriminate Ho; reflexivity. Qed.
+
+Lemma in_range_work : forall i o z,
+  is_int i = true -> is_int o = true -> in_range i z -> in_range (work_dtype i o) z.
+Proof.
+  intros i o z Hi Ho Hr. unfold work_dtype. destruct (int_via_float i o) eqn:E. exact Hr.
+  apply in_range_promote; try assumption.
+  unfold int_via_float in E. rewrite Hi, Ho in E. cbn [andb] in E. apply negb_false_iff in E. exact E.
+Qed.
+
+Lemma imin_le_imax : forall d, imin d <= imax d.
+Proof. intros d. destruct d; vm_compute; intro H; discriminate H. Qed.
+
+(* clipping with the bounds the transformer passes to np.clip is saturation
+   into the output range, on every value of the input type *)
+Lemma clip_bounds_clamp : forall i o v, in_range i v ->
+  Z.min (Z.max v (clip_lo i o)) (clip_hi i o) = clamp o v.
+Proof.
+  intros i o v Hr. unfold clip_lo, clip_hi.
+  destruct (int_via_float i o) eqn:E.
+  - destruct i; try discriminate E; destruct o; try discriminate E; dt_unfold; lia.
+  - pose proof (imin_le_imax o). unfold clamp. lia.
+Qed.
+
+Lemma saturate_top_int : forall i o, is_int i = true -> is_int o = true -> saturate_top i o = false.
+Proof.
+  intros i o Hi Ho. unfold saturate_top. rewrite (work_dtype_int i o Hi Ho).
+  cbn [negb]. rewrite andb_false_r. reflexivity.
+Qed.
+
+(* C11 (1): integer to integer is exact saturation, for ALL integer pairs
+   (signed -> uint64 included: it no longer goes through float64) and ALL
+   values of the input type. *)
 Theorem int_to_int_exact : forall i o v,
-  is_int i = true -> is_int o = true -> is_int (promote i o) = true ->
-  in_range i v ->
+  is_int i = true -> is_int o = true -> in_range i v ->
   convert_scalar i o (NI v) = NI (clamp o v).
 Proof.
-  intros i o v Hi Ho Hw Hr.
+  intros i o v Hi Ho Hr.
   unfold convert_scalar, work_value, round_flag, clip_flag.
-  rewrite Hi, Ho. cbn [negb andb orb].
+  rewrite (saturate_top_int i o Hi Ho). rewrite Hi, Ho. cbn [negb andb orb].
   destruct (can_cast_safe i o) eqn:Hc; cbn [negb].
   - (* safe: plain astype *)
     cbn [cast]. rewrite Ho. f_equal.
     pose proof (in_range_safe i o v Hi Ho Hc Hr) as Hro.
     rewrite wrap_id by assumption. symmetry. apply clamp_id. exact Hro.
-  - cbn [cast]. rewrite Hw. cbn [clip_num cast]. rewrite Ho. f_equal.
-    rewrite (wrap_id (promote i o) v Hw (in_range_promote i o v Hi Hw Hr)).
-    replace (Z.min (Z.max v (imin o)) (imax o)) with (clamp o v).
-    + apply wrap_id. exact Ho. apply clamp_in_range. exact Ho.
-    + pose proof (clamp_in_range o v Ho) as Hc'. unfold clamp, in_range in *.
-      assert (imin o <= imax o) by lia. lia.
+  - cbn [cast]. rewrite (work_dtype_int i o Hi Ho). cbn [clip_num cast]. rewrite Ho. f_equal.
+    rewrite (wrap_id (work_dtype i o) v (work_dtype_int i o Hi Ho) (in_range_work i o v Hi Ho Hr)).
+    rewrite (clip_bounds_clamp i o v Hr).
+    apply wrap_id. exact Ho. apply clamp_in_range. exact Ho.
 Qed.
 
 (* the result is in range of the output type: never wraps *)
 Corollary int_to_int_in_range : forall i o v,
-  is_int i = true -> is_int o = true -> is_int (promote i o) = true ->
+  is_int i = true -> is_int o = true ->
   in_range i v -> exists r, convert_scalar i o (NI v) = NI r /\ in_range o r.
 Proof.
   intros. eexists. split. apply int_to_int_exact; assumption. apply clamp_in_range; assumption.
 Qed.
 
-(* which pairs have an integer work type: all integer pairs except signed -> uint64 *)
+(* the work type of an integer pair: NumPy's promotion, except for
+   signed -> uint64 (and uint64 -> signed), where it is the input type *)
 Lemma int_work_pairs : forall i o,
   is_int i = true -> is_int o = true ->
-  is_int (promote i o) = negb (is_signed i && dtype_eqb o U64 || dtype_eqb i U64 && is_signed o).
+  work_dtype i o =
+    if is_signed i && dtype_eqb o U64 || dtype_eqb i U64 && is_signed o then i else promote i o.
 Proof. intros i o Hi Ho. destruct i; try discriminate Hi; destruct o; try discriminate Ho; reflexivity. Qed.
 
 (* C11 (4): buffer modes *)
@@ -114,36 +146,11 @@ Proof. intros. reflexivity. Qed.
    holds the rounded / clipped work values *)
 Theorem input_after_char : forall i o p wr nat_ l,
   snd (convert i o p wr nat_ l) =
-    if negb p && (round_flag i o || clip_flag i o) && dtype_eqb (promote i o) i && wr && nat_
+    if negb p && (round_flag i o || clip_flag i o) && dtype_eqb (work_dtype i o) i && wr && nat_
     then map (work_value i o) l else l.
 Proof. intros. reflexivity. Qed.
 
-(* ---- refutations: exact witnesses, by computation ---------------------- *)
-
-Definition f64_of_bits := of_bits b64.
-
-(* float -> uint64: the region where saturation fails *)
-(* 2.0**64 as float64 *)
-Definition w_two64 : num := NF (of_bits b64 4895412794951729152).
-
-Lemma uint64_top_refuted :
-  exists i o v, uint64_top_guard i o v = false /\ num_finite v = true /\
-    convert_scalar i o v <> nearest_sat o (num2Q v) /\
-    convert_scalar i o v = NI 0 /\ nearest_sat o (num2Q v) = NI (2 ^ 64 - 1).
-Proof.
-  exists F64, U64, w_two64. repeat split; try (vm_compute; reflexivity).
-  vm_compute. discriminate.
-Qed.
-
-(* int64 -> uint64 goes through float64 *)
-Lemma int64_via_float_refuted :
-  exists i o v, int64_via_float_guard i o v = false /\ num_ok i v = true /\
-    convert_scalar i o v <> nearest_sat o (num2Q v) /\
-    convert_scalar i o v = NI (2 ^ 53) /\ nearest_sat o (num2Q v) = NI (2 ^ 53 + 1).
-Proof.
-  exists I64, U64, (NI (2 ^ 53 + 1)). repeat split; try (vm_compute; reflexivity).
-  vm_compute. discriminate.
-Qed.
+(* ---- the remaining departure from the specification: exact witness -------- *)
 
 (* float64 -> float32 overflows to infinity *)
 (* 1e39 as float64 *)
@@ -159,14 +166,25 @@ Proof.
   vm_compute. discriminate.
 Qed.
 
-(* aliasing really happens: the in-place mode overwrites the caller's buffer *)
+(* the two repaired regions, on their former witnesses *)
+Lemma repaired_examples :
+  convert_scalar F64 U64 (NF (of_bits b64 4895412794951729152)) = NI (2 ^ 64 - 1) /\   (* 2.0**64 *)
+  convert_scalar F32 U64 (NF (of_bits b32 1602224128)) = NI (2 ^ 64 - 1) /\           (* float32 2**64 *)
+  convert_scalar I64 U64 (NI (2 ^ 53 + 1)) = NI (2 ^ 53 + 1) /\
+  convert_scalar I64 U64 (NI (2 ^ 63 - 1)) = NI (2 ^ 63 - 1) /\
+  convert_scalar I8 U64 (NI (-5)) = NI 0.
+Proof. repeat split; vm_compute; reflexivity. Qed.
+
+(* aliasing really happens: the in-place mode overwrites the caller's buffer;
+   since the integer path for signed -> uint64, also for those pairs *)
 Lemma input_overwritten_example :
   snd (convert F64 U8 false true true [NF (of_bits b64 4643211215818981376)])  (* 256.0 *)
-  = [NF (of_bits b64 4643176031446892544)].                                     (* 255.0 *)
-Proof. vm_compute. reflexivity. Qed.
+  = [NF (of_bits b64 4643176031446892544)]                                      (* 255.0 *)
+  /\ snd (convert I8 U64 false true true [NI (-5); NI 7]) = [NI 0; NI 7].
+Proof. split; vm_compute; reflexivity. Qed.
 
 (* non-vacuity of int_to_int_exact *)
 Example int_to_int_example :
-  is_int I16 = true /\ is_int U8 = true /\ is_int (promote I16 U8) = true /\ in_range I16 (-300) /\
+  is_int I16 = true /\ is_int U8 = true /\ in_range I16 (-300) /\
   convert_scalar I16 U8 (NI (-300)) = NI 0 /\ convert_scalar I64 U32 (NI (2 ^ 40)) = NI (2 ^ 32 - 1).
 Proof. repeat split; try (vm_compute; reflexivity); vm_compute; discriminate. Qed.
